@@ -19,6 +19,9 @@ package main
 // Shutdown call, state of Serve.  Polls of the wait loop are observed through the server's logger.
 
 import (
+	"net/http"
+	"io"
+	"bufio"
 	"context"
 	"encoding/binary"
 	"errors"
@@ -1179,12 +1182,116 @@ func genSdCase(r *common.Rand, pool bool) sdCase {
 	return c
 }
 
+// sdGateway: the HTTP ingresses of a server listening on TCP.  A keep-alive gateway connection serves one request,
+// Shutdown runs to completion, the serve loop returns; a second request on the same connection (and one on a new
+// connection) must start no handler.  Oracle only.  case: gw|<DisableJSONRPC>|<DisableHTTPGateway>
+func sdGateway(o *common.Out, id string, noJSONRPC, noGateway bool) {
+	abstract := fmt.Sprintf("gw|%v|%v", noJSONRPC, noGateway)
+	o.Begin(id, abstract)
+	o.Count("http-ingress-after-shutdown")
+	h := newHandlerEnv(false)
+	s := server.NewServer()
+	s.DisableJSONRPC, s.DisableHTTPGateway = noJSONRPC, noGateway
+	s.RegisterName("Arith", &Arith{h: h}, "")
+	ln, err := net.Listen("tcp", "127.0.0.1:0")
+	if err != nil {
+		o.Fail(id, "rig", err.Error(), abstract)
+		return
+	}
+	served := make(chan error, 1)
+	go func() { served <- s.ServeListener("tcp", ln) }()
+	select {
+	case <-s.Started:
+	case <-time.After(2 * time.Second):
+	}
+	time.Sleep(5 * time.Millisecond) // the HTTP front ends start in their own goroutines
+	addr := ln.Addr().String()
+	started := func() int { h.mu.Lock(); defer h.mu.Unlock(); return len(h.invoked) }
+	drain := func() {
+		for len(h.entered) > 0 {
+			<-h.entered
+		}
+		for len(h.finished) > 0 {
+			<-h.finished
+		}
+	}
+	// one gateway request over a raw keep-alive connection; status 0: no answer
+	post := func(c net.Conn, rid int) int {
+		body := fmt.Sprintf(`{"Id":%d,"A":6,"B":7,"Mode":"ok"}`, rid)
+		req := fmt.Sprintf("POST / HTTP/1.1\r\nHost: x\r\nContent-Length: %d\r\nX-RPCX-MessageID: %d\r\nX-RPCX-MessageType: 0\r\nX-RPCX-SerializeType: 1\r\nX-RPCX-ServicePath: Arith\r\nX-RPCX-ServiceMethod: Mul\r\n\r\n%s", len(body), rid, body)
+		c.SetDeadline(time.Now().Add(time.Second))
+		if _, err := c.Write([]byte(req)); err != nil {
+			return 0
+		}
+		resp, err := http.ReadResponse(bufio.NewReader(c), nil)
+		if err != nil {
+			return 0
+		}
+		io.Copy(io.Discard, resp.Body)
+		resp.Body.Close()
+		return resp.StatusCode
+	}
+	var kc net.Conn
+	if !noGateway {
+		kc, err = net.Dial("tcp", addr)
+		if err != nil {
+			o.Fail(id, "rig", err.Error(), abstract)
+			return
+		}
+		defer kc.Close()
+		if st := post(kc, 1); st != 200 || started() != 1 {
+			o.Fail(id, "rig", fmt.Sprintf("the gateway request before Shutdown: status %d, %d handler starts", st, started()), abstract)
+			s.Close()
+			return
+		}
+		drain()
+	}
+	before := started()
+	sdDone := make(chan error, 1)
+	go func() { sdDone <- s.Shutdown(context.Background()) }()
+	select {
+	case <-sdDone:
+	case <-time.After(5 * time.Second):
+		o.Fail(id, "shutdown-hangs", "Shutdown of an idle server with an open gateway connection did not return", abstract)
+		return
+	}
+	select {
+	case e := <-served:
+		if e != server.ErrServerClosed {
+			o.Fail(id, "serve-return", fmt.Sprintf("the serve loop returned %v", e), abstract)
+		}
+	case <-time.After(3 * time.Second):
+		o.Fail(id, "serve-return", "the serve loop did not return after Shutdown", abstract)
+	}
+	if kc != nil {
+		if st := post(kc, 2); st == 200 || started() != before {
+			o.Fail(id, "handler-after-shutdown", fmt.Sprintf("a gateway request sent on a kept-alive connection after Shutdown had returned was answered with status %d; handler starts %d -> %d", st, before, started()), abstract)
+		}
+	}
+	if nc, err := net.DialTimeout("tcp", addr, 200*time.Millisecond); err == nil {
+		st := post(nc, 3)
+		nc.Close()
+		if st == 200 || started() != before {
+			o.Fail(id, "handler-after-shutdown", fmt.Sprintf("a gateway request on a connection opened after Shutdown had returned was answered with status %d", st), abstract)
+		}
+	}
+	o.ImplOnly(id, abstract, true)
+}
+
 func runShutdown(r *common.Rand, tier string, o *common.Out, replay string) {
+	if strings.HasPrefix(replay, "gw|") {
+		p := strings.Split(replay, "|")
+		sdGateway(o, "replay", p[1] == "true", p[2] == "true")
+		return
+	}
 	if replay != "" {
 		// once with a reachable registry, once with an unreachable one (the rigs alternate)
 		sdRunCase(o, "replay", decSdCase(replay))
 		sdRunCase(o, "replay-registry-down", decSdCase(replay))
 		return
+	}
+	for gi, cfg := range [][2]bool{{false, false}, {true, false}, {false, true}, {true, true}} {
+		sdGateway(o, fmt.Sprintf("gw%d", gi), cfg[0], cfg[1])
 	}
 	n := 0
 	// systematic part: one request of every kind, Shutdown begun at every point of its path, both
